@@ -95,7 +95,7 @@ class Gen:
                 del self.held[h]
             self.ops.append(op)
         elif x < 0.49 + w_reg and len(st["pend"]) < (12 if p == "storm" else 5):
-            n = rng.choice([1, 1, 2, 2, 3, 8])
+            n = rng.choice([1, 1, 2, 2, 3, 8, 65, 100, 300]) if rng.random() < 0.5 else rng.choice([1, 2, 3])
             hid = self.next_hole
             self.next_hole += 1
             st["pend"][hid] = n
@@ -120,7 +120,10 @@ class Gen:
                 n = 1
             else:
                 n = rng.choice([0, 1, 2, 63, 64, 65, 100, 300, 4096, max(1, st["bytes"] // 2), st["bytes"], st["bytes"] + 7])
-            self.ops.append({"ev": kind, "o": o, "n": n})
+            op = {"ev": kind, "o": o, "n": n}
+            if kind == "read" and rng.random() < 0.2:
+                op = {"ev": "read", "o": o, "n": 10 ** 9, "to_end": True}
+            self.ops.append(op)
         elif x < 0.84:
             self.ops.append(rng.choice([{"ev": "flush", "o": o}, {"ev": "ensure", "o": o, "n": rng.choice([1, 100, 5000, 70000])},
                                         {"ev": "take_arena", "o": o}]))
